@@ -238,7 +238,9 @@ def run_validate(res, tier, shard):
              # files that fail to load in other ways than a syntax error
              "recursive": 'MAP\n  INCLUDE "recursive.map"\nEND\n', "nonutf8": b'MAP\n  NAME "caf\xe9"\nEND\n',
              "transformer_error": 'MAP\n  LAYER\n    TYPE POINT\n    FEATURE\n      POINTS\n      END\n    END\n  END\nEND\n'}
-    base_kinds = ["invalid", "missing", "unparseable", "valid"]
+    # two items of one list value invalid in the same way: the messages (and their line/column) are identical, and still two
+    kinds["twice"] = 'MAP\n  NAME "d"\n  LEGEND\n    KEYSIZE 500 500\n    KEYSPACING 500 500\n  END\nEND\n'
+    base_kinds = ["invalid", "missing", "unparseable", "valid", "twice"]
     cases = []
     for r_ in (1, 2, 3):
         for combo in itertools.combinations(sorted(kinds), r_):
